@@ -88,16 +88,19 @@ DEFAULTS = {
 def gen_sdl(seed, idx):
     r = random.Random("pool:%d:%d" % (seed, idx))
     out = []
-    renamed = r.random() < 0.3
+    style = r.random()
+    renamed = style < 0.3
+    crossed = 0.3 <= style < 0.45  # a root named after another operation
     qname = "RootQ" if renamed else "Query"
-    mname = "RootM" if renamed else "Mutation"
-    has_mut = r.random() < 0.5
+    mname = "RootM" if renamed else ("Subscription" if crossed
+                                     else "Mutation")
+    has_mut = crossed or r.random() < 0.5
     out.append('%sdirective @tag(name: String = "t", n: Int) on OBJECT | '
                "FIELD_DEFINITION | ARGUMENT_DEFINITION | ENUM_VALUE | "
                "INPUT_FIELD_DEFINITION | INTERFACE | UNION | ENUM | SCALAR | "
                "INPUT_OBJECT | SCHEMA" % _desc(r))
     out.append("directive @flag on FIELD_DEFINITION | OBJECT")
-    if renamed or r.random() < 0.2:
+    if renamed or crossed or r.random() < 0.2:
         sd = "schema%s { query: %s%s }" % (
             _dirs(r, "SCHEMA"), qname,
             (" mutation: %s" % mname) if has_mut else "")
@@ -172,10 +175,10 @@ def gen_sdl(seed, idx):
         out.append("type %s {\n  do_it(p: Pt = {x: 1}): Int\n}" % mname)
     # extensions
     if r.random() < 0.5:
-        out.append("extend type %s {\n  extra_field: Int%s\n}" % (
-            qname, _dirs(r, "FIELD_DEFINITION")))
+        out.append("extend type %s%s {\n  extra_field: Int%s\n}" % (
+            qname, _dirs(r, "OBJECT"), _dirs(r, "FIELD_DEFINITION")))
     if r.random() < 0.3:
-        out.append("extend enum Color {\n  PURPLE\n}")
+        out.append("extend enum Color%s {\n  PURPLE\n}" % _dirs(r, "ENUM"))
     if r.random() < 0.3:
         out.append("extend input Pt {\n  z: Int\n}")
     return out
